@@ -629,7 +629,7 @@ def stream_dfxp_corpus(ctx, acc):
     except Exception:
         acc.res["distribution"]["dfxp_fixture_module_not_importable"] = 1
     rng = ctx.rng
-    for _ in range(ctx.n(60, 600)):
+    for _ in range(ctx.n(40, 600)):
         langs = {}
         for lang in rng.sample(["en-US", "fr", "de"], rng.choice([1, 1, 2])):
             t = 0
@@ -911,7 +911,7 @@ def run(ctx):
     stream_sami(ctx, acc, q(300, 5000))
     stream_dfxp_tree(ctx, acc, q(400, 6000))
     stream_sami_tree(ctx, acc, q(250, 4000))
-    stream_dfxp_text(ctx, acc, q(400, 6000))
+    stream_dfxp_text(ctx, acc, q(300, 5000))
     stream_dfxp_corpus(ctx, acc)
     stream_explicit(ctx, acc)
     stream_frame_rate(ctx, acc)
